@@ -26,7 +26,9 @@ RULE = ('seeded .zmx texts: 1-30 lens surfaces (plus object and image), STANDARD
         'WAVM lines, any primary index, PWAV before or after WAVM, catalogue and unknown glass names, GCAT lists, '
         'noise operands, LF / CRLF; encodings UTF-8, UTF-8 with BOM, UTF-16 LE with BOM, UTF-16 BE with BOM in rotation plus a '
         'fixed corpus (each encoding x MODE|VERS first line x sequential|non-sequential, and two model glasses sharing one '
-        'unknown name); number tokens in repr / %.15E / %.9g / %.17g; '
+        'unknown name; every GLAS line form x UTF-8 / UTF-16 on a d-line doublet+singlet whose focal length is also compared '
+        'with an independent y-nu trace of the written numbers and published n_d); GLAS forms, whitespace styles and WAVM without '
+        'weight also vary in two thirds of the random files; number tokens in repr / %.15E / %.9g / %.17g; '
         'non-trivial = the file loads and has at least one curved surface')
 PARTIAL = [
     'image surface: the round-trip theorem assumes the last SURF block is a plain image plane (listed finding D22: '
@@ -188,6 +190,16 @@ def _corpus(ctx):
     p['encoding'] = 'utf-8'
     p['corpus'] = True
     ps.append(p)
+    # every GLAS line form (as saved by Zemax, name only as in vendor files, name + codes, cut after n_d, model
+    # glass) x two encodings, whitespace styles in rotation; d line primary so the independent y-nu oracle applies
+    j = 0
+    for form in L.GLAS_FORMS + ['model']:
+        for enc in ('utf-8', 'utf-16-le-bom'):
+            q = L.fixed_prescription(950000 + j, 'full' if form == 'model' else form, L.WS_STYLES[j % 4], model=form == 'model')
+            q['encoding'] = enc
+            q['corpus'] = True
+            ps.append(q)
+            j += 1
     return ps
 
 
@@ -209,14 +221,17 @@ def _make_cases(ctx, n, start=0, modes=True, corpus=True):
         p = L.gen_prescription(g, i, mode)
         p['encoding'] = L.ENCODINGS[i % 4]
         p['mode_first'] = (i // 4) % 3 == 0
+        if i % 3 != 0:
+            L.add_variants(p)
         ps.append(p)
     codecs = L.importer_encodings(vlib.REPO)
     cases = []
     for p in ps:
         lines = L.emit_lines(p)
         text = L.emit_text(p)
+        exp = L.expected_lens(p)
         cases.append({'text': text, 'encoding': p['encoding'], 'parax': p['mode'] == 'sane',
-                      'expected': L.expected_lens(p), 'lookups': L.lookups_of(lines), 'lines': lines,
+                      'expected': exp, 'efl_independent': L.ynu_focal_length(exp) if p['mode'] == 'sane' else None, 'lookups': L.lookups_of(lines), 'lines': lines,
                       # what the importer's line loop is handed: decoding follows the codec list in the source
                       'model_lines': L.decoded_lines(L.encode_text(text, p['encoding']), codecs)})
     obs = L.run_loader(vlib, [{k: v for k, v in c.items() if k not in ('lines', 'model_lines')} for c in cases])
@@ -227,7 +242,9 @@ def _witnesses(p, case, o):
     """property-level violations of one loaded file (the property stated directly on the implementation)"""
     ws = []
     brief = {'idx': p['idx'], 'mode': p['mode'], 'encoding': p['encoding'], 'seed': p['seed'],
-             'first_line': 'MODE' if (p.get('mode_first') and p['seqline']) else 'VERS'}
+             'first_line': 'MODE' if (p.get('mode_first') and p['seqline']) else 'VERS',
+             'whitespace': p.get('ws', 'plain'),
+             'glas_forms': sorted({(s['glass'] or {}).get('form', 'full') for s in p['surfs'] if s['glass']})}
     if p['mode'] == 'nsc':
         if o.get('ok') or o.get('err') != 'ValueError':
             ws.append({'kind': 'nonsequential-accepted', 'clause': 'nonsequential', 'class': 'nonsequential-accepted',
@@ -241,6 +258,14 @@ def _witnesses(p, case, o):
         ws.append({'kind': 'paraxial-differs', 'clause': 'paraxial', 'class': 'paraxial',
                    'detail': f'imported {o["parax"]} vs lens built from the written numbers {o.get("parax_ref")}',
                    'case': brief, 'text': case['text'], 'violates_property': True})
+    fi = case.get('efl_independent')
+    if fi is not None and o.get('ok') and 'parax' in o:
+        f2 = o['parax'].get('f2')
+        if not (isinstance(f2, float) and abs(f2 - fi) <= 2e-3 * abs(fi)):
+            ws.append({'kind': 'paraxial-differs', 'clause': 'paraxial', 'class': 'efl-vs-independent-ynu',
+                       'detail': f'focal length {f2!r} imported, {fi!r} from a y-nu trace of the written curvatures, '
+                                 'thicknesses and the published n_d of the named glasses',
+                       'case': brief, 'text': case['text'], 'violates_property': True})
     return ws
 
 
@@ -272,10 +297,17 @@ def system_checks(ctx):
                        'first_line:MODE': sum(1 for p in ps if p.get('mode_first') and p['seqline']),
                        'first_line:VERS': sum(1 for p in ps if not (p.get('mode_first') and p['seqline'])),
                        'importer_codecs': L.importer_encodings(vlib.REPO),
+                       **{'glas_line:' + f: sum(1 for p in ps for s_ in p['surfs'] if s_['glass'] and s_['glass']['class'] == 'catalogue'
+                                                and s_['glass'].get('form', 'full') == f) for f in L.GLAS_FORMS},
+                       'glas_line:model': sum(1 for p in ps for s_ in p['surfs'] if s_['glass'] and s_['glass']['class'] == 'model'),
+                       **{'whitespace:' + w: sum(1 for p in ps if p.get('ws', 'plain') == w) for w in L.WS_STYLES},
+                       'wavm_without_weight': sum(1 for p in ps if p.get('wavm_weight') is False),
+                       'focal_length_vs_independent_ynu': sum(1 for c in cases if c.get('efl_independent') is not None),
                        'surfaces_max': max(len(p['surfs']) for p in ps), 'load_raised': sum(1 for o in obs if not o.get('ok'))},
          'note': 'every run holds the fixed corpus: UTF-8 without and with BOM, UTF-16 LE and BE with BOM, each with MODE and '
                  'with VERS on the first line, each sequential and non-sequential; the model is fed the lines produced by the '
-                 'codec list read from _read_file',
+                 'codec list read from _read_file; GLAS lines are written as saved by Zemax, name only (vendor files), name + codes, '
+                 'cut after n_d, and as model glass; whitespace as single blanks, tabs, runs of blanks, trailing blanks',
          'samples': [{'file': ps[0]['idx'], 'encoding': ps[0]['encoding'], 'first_lines': cases[0]['lines'][:6],
                       'python': {k: obs[0].get(k) for k in ('ap', 'ftype', 'waves', 'prim')}}]}
     errs = [r[1] for r in res if r[0] == 'error']
